@@ -125,11 +125,52 @@ Definition verdict (s : schema) (i : nat) (t : target) (flt : list string) : Z :
   | _, _ => 1%Z
   end.
 
+(* EXACT class of a name collision in the C translation unit (for the known-findings filter):
+   [helper_ambiguity]: two helper / processor functions of DIFFERENT (definition, field number)
+   origins get the same name although they do not merely share a field number - i.e. the
+   ambiguity of concatenating name and number (A1/2 vs A/12) or of the "Array" infix
+   (message ArrayT vs array alias T);  [typedef_fn_clash]: a user typedef name equals a
+   generated function name. *)
+Definition helper_entries (s : schema) (i : nat) : list (string * (string * nat)) :=
+  let px := own_px s i LC in
+  flat_map (fun fd =>
+    match fd_def fd with
+    | DAlias n t =>
+        let a := dname LC KAlias px (fd_path fd) n in
+        (c_alias_processor_name a, (a, 0)) ::
+        (if is_arr t then [(c_array_processor_name_alias a, (a, 0))] else [])
+    | DMsg n _ _ fs =>
+        let m := dname LC KMessage px (fd_path fd) n in
+        (c_message_processor_name m, (m, 0)) ::
+        map (fun fl => (c_array_processor_name_field m (dec (fl_num fl)), (m, fl_num fl)))
+            (filter (fun fl => is_arr (fl_ty fl)) fs)
+    | _ => []
+    end) (flat_file (getf s i)).
+
+Definition helper_ambiguity (s : schema) (i : nat) : bool :=
+  let l := helper_entries s i in
+  existsb (fun e1 => existsb (fun e2 =>
+    String.eqb (fst e1) (fst e2) &&
+    negb (String.eqb (fst (snd e1)) (fst (snd e2)) && Nat.eqb (snd (snd e1)) (snd (snd e2))) &&
+    negb (Nat.eqb (snd (snd e1)) (snd (snd e2)) && negb (Nat.eqb (snd (snd e1)) 0))) l) l.
+
+Definition typedef_fn_clash (s : schema) (i : nat) : bool :=
+  match tu_items s i TgC [] with
+  | Some its =>
+      let ds := decls_of its in
+      existsb (fun d1 => match d_kind d1 with
+                         | DkTypedef => existsb (fun d2 => match d_kind d2 with
+                                                          | DkFunc | DkProto => String.eqb (d_name d1) (d_name d2)
+                                                          | _ => false end) ds
+                         | _ => false end) ds
+  | None => false
+  end.
+
 (* what the guards predict (for the harness: which known-finding classes a schema is in) *)
 Definition guard_mask (L : lang) (s : schema) (i : nat) : Z :=
   (bit (negb (pre L s i)) 1 +
-   bit (match L with LC => negb (g_helper s i) | _ => false end) 2 +
-   bit (negb (g_derived L s i)) 4 +
+   bit (match L with LC => helper_ambiguity s i | _ => false end) 2 +
+   bit (match L with LC => typedef_fn_clash s i | _ => negb (g_derived L s i) end) 4 +
    bit (negb (g_qualify L s i)) 8 +
    bit (negb (g_import L s i)) 16 +
    bit (match L with LPy => negb (g_enum_nonempty s i) | _ => false end) 32 +
